@@ -206,7 +206,7 @@ func c06Check(c c06Case) vfResult {
 						e := c.Exts[o.Ext]
 						al := backing[o.Ext]
 						if e.Parent == "" {
-							Extend(c06Pred(o.Ext), e.Mime, e.Ext, al...)
+							vfExtendRoot(c06Pred(o.Ext), e.Mime, e.Ext, al...)
 							atomic.StoreInt32(&applied[o.Ext], 1)
 						} else if p := Lookup(e.Parent); p != nil {
 							p.Extend(c06Pred(o.Ext), e.Mime, e.Ext, al...)
@@ -509,7 +509,7 @@ func c06GMime(k int) string { return fmt.Sprintf("application/x-verif-g%d", k) }
 func c06GApply(w c06GWrite, k int) {
 	pred := func(raw []byte, _ uint32) bool { return c06Tagged(raw, w.Tag) }
 	if w.Parent == "" {
-		Extend(pred, c06GMime(k), fmt.Sprintf(".g%d", k))
+		vfExtendRoot(pred, c06GMime(k), fmt.Sprintf(".g%d", k))
 	} else if p := Lookup(w.Parent); p != nil {
 		p.Extend(pred, c06GMime(k), fmt.Sprintf(".g%d", k))
 	}
@@ -544,7 +544,7 @@ func c06GatedCheck(c c06Gated) vfResult {
 			return
 		}
 		if c.HookParent == "" {
-			Extend(hook, "application/x-verif-hook", ".hook")
+			vfExtendRoot(hook, "application/x-verif-hook", ".hook")
 		} else if p := Lookup(c.HookParent); p != nil {
 			p.Extend(hook, "application/x-verif-hook", ".hook")
 		}
